@@ -63,6 +63,8 @@ pub enum Mem {
 	WR(Poisonable<St<R>>),
 	/// a by-value member of some other collection, reached through child()/iter()
 	O(St<OMem>),
+	/// a lock stored by value among the references (mixed ownership)
+	V(OMem),
 	BoxedV(St<Boxed<Vec<Mem>>>),
 	RefV(St<RefC<'static, Vec<Mem>>>),
 	RetryV(St<Retry<Vec<Mem>>>),
@@ -203,6 +205,7 @@ unsafe impl Lockable for Mem {
 			Mem::WM(x) => x.get_ptrs(ptrs),
 			Mem::WR(x) => x.get_ptrs(ptrs),
 			Mem::O(x) => x.get_ptrs(ptrs),
+			Mem::V(x) => x.get_ptrs(ptrs),
 			Mem::BoxedV(x) => x.get_ptrs(ptrs),
 			Mem::RefV(x) => x.get_ptrs(ptrs),
 			Mem::RetryV(x) => x.get_ptrs(ptrs),
@@ -229,6 +232,7 @@ unsafe impl Lockable for Mem {
 			Mem::WM(x) => MemG::PM(extend_g(Lockable::guard(x))),
 			Mem::WR(x) => MemG::PR(extend_g(Lockable::guard(x))),
 			Mem::O(x) => MemG::O(Lockable::guard(*x)),
+			Mem::V(x) => MemG::O(extend_g(Lockable::guard(x))),
 			Mem::BoxedV(x) => MemG::V(Lockable::guard(*x)),
 			Mem::RefV(x) => MemG::V(Lockable::guard(*x)),
 			Mem::RetryV(x) => MemG::V(Lockable::guard(*x)),
@@ -257,6 +261,7 @@ unsafe impl Lockable for Mem {
 			Mem::WM(x) => MemD::PL(extend_g(Lockable::data_mut(x))),
 			Mem::WR(x) => MemD::PL(extend_g(Lockable::data_mut(x))),
 			Mem::O(x) => MemD::O(Lockable::data_mut(*x)),
+			Mem::V(x) => MemD::O(extend_g(Lockable::data_mut(x))),
 			Mem::BoxedV(x) => MemD::V(Lockable::data_mut(*x)),
 			Mem::RefV(x) => MemD::V(Lockable::data_mut(*x)),
 			Mem::RetryV(x) => MemD::V(Lockable::data_mut(*x)),
@@ -306,6 +311,7 @@ unsafe impl Sharable for Mem {
 			Mem::PPR(x) => MemRG::PPR(Sharable::read_guard(*x)),
 			Mem::WR(x) => MemRG::PR(extend_g(Sharable::read_guard(x))),
 			Mem::O(x) => MemRG::O(Sharable::read_guard(*x)),
+			Mem::V(x) => MemRG::O(extend_g(Sharable::read_guard(x))),
 			Mem::BoxedV(x) => MemRG::V(Sharable::read_guard(*x)),
 			Mem::RefV(x) => MemRG::V(Sharable::read_guard(*x)),
 			Mem::RetryV(x) => MemRG::V(Sharable::read_guard(*x)),
@@ -333,6 +339,7 @@ unsafe impl Sharable for Mem {
 			Mem::PPR(x) => MemDR::PPL(Sharable::data_ref(*x)),
 			Mem::WR(x) => MemDR::PL(extend_g(Sharable::data_ref(x))),
 			Mem::O(x) => MemDR::O(Sharable::data_ref(*x)),
+			Mem::V(x) => MemDR::O(extend_g(Sharable::data_ref(x))),
 			Mem::BoxedV(x) => MemDR::V(Sharable::data_ref(*x)),
 			Mem::RefV(x) => MemDR::V(Sharable::data_ref(*x)),
 			Mem::RetryV(x) => MemDR::V(Sharable::data_ref(*x)),
